@@ -59,6 +59,7 @@ def _install():
     _installed[0] = True
 
 
+DECFN_CODE = {"identity": 0, "decode_gzip": 1, "decode_deflate": 2, "decode_brotli": 3, "decode_zstd": 4}
 DOCUMENTED_CACHED = ["gzip", "deflate", "deflateraw", "br", "zstd"]
 
 
@@ -335,6 +336,29 @@ def _ce_of(mstate):
     return None if r == "none" else unhx(r).decode("ascii")
 
 
+def _own(case):
+    """case kind {"own": <custom_decode key>, "data_hex": x}: mitmproxy's own decoder FUNCTION for that key run on x
+    (any exception = verr), next to the outcome of the library calls that function makes on x — the values the
+    transcription `ownDecodeWith` receives"""
+    n, x = case["own"], unhx(case["data_hex"])
+    f = ORIG_DEC.get(n)
+    if f is None: return {"own": "nofn", "l1": "err", "l2": "err", "fn": "-"}
+    try:
+        real = _res(f(x))
+    except Exception:
+        real = "verr"
+
+    def lib(call):
+        try: return "ok:" + hx(call())
+        except Exception: return "err"
+
+    def z47():
+        d = zlib.decompressobj(47); return d.decompress(x) + d.flush()
+    first = {"decode_gzip": z47, "decode_deflate": lambda: zlib.decompress(x), "decode_brotli": lambda: brotli.decompress(x),
+             "decode_zstd": lambda: zstd.decompress(x)}.get(f.__name__)
+    return {"own": real, "l1": lib(first) if first else "err", "l2": lib(lambda: zlib.decompress(x, -15)), "fn": f.__name__}
+
+
 # ------------------------------------------------------------------------------------------------
 P1 = b"hello hello hello hello"
 P2 = b"\x00\xffbinary\x80 body"
@@ -469,6 +493,11 @@ class Check(PropertyCheck):
                f"def cachedDec : List (List UInt8) := {lst(CACHED_DEC)}\n\n"
                f"/-- the tuple in `encoding.encode`: `if encoding in (...)`: {doc(CACHED_ENC)} -/\n"
                f"def cachedEnc : List (List UInt8) := {lst(CACHED_ENC)}\n\n"
+               "/-- which function each `custom_decode` key is bound to (`f.__name__`): 0 identity, 1 decode_gzip, 2 decode_deflate,\n"
+               f"    3 decode_brotli, 4 decode_zstd, 99 anything else: {doc([k + '->' + ORIG_DEC[k].__name__ for k in sorted(ORIG_DEC)])} -/\n"
+               "def decodeFn : List (List UInt8 × Nat) := [" + ", ".join(
+                   "([" + ", ".join("0x%02x" % b for b in k.encode("ascii")) + "], %d)" % DECFN_CODE.get(ORIG_DEC[k].__name__, 99)
+                   for k in sorted(ORIG_DEC)) + "]\n\n"
                f"/-- probed names that Python's codecs maps bytes -> bytes: {doc(pyb)} -/\n"
                f"def pyBytes : List (List UInt8) := {lst(pyb)}\n\n"
                f"/-- probed names that are text codecs / reject bytes (TypeError or str result): {doc(pyt)} -/\n"
@@ -631,10 +660,30 @@ class Check(PropertyCheck):
                             ops.append({"o": "get", "i": i, "s": 1})
                             yield {"ops": ops}
 
+    def _own_scope(self, full):
+        """tie of the transcribed decoder functions: every custom_decode key (+ a non-key) x bodies of every shape"""
+        bodies = []
+        for p, st in STREAMS.items():
+            if not full and p not in (b"", P1): continue
+            for vs in st.values(): bodies += vs
+        bodies += [b"", b"x", P1, b"\x00", b"\x78\x9c", b"\x1f\x8b"]
+        seen = set()
+        for n in sorted(ORIG_DEC) + ["foo", "GZip"]:
+            for b in bodies:
+                if (n, b) in seen: continue
+                seen.add((n, b))
+                if not full and len(seen) % 3: continue          # quick tier: every third combination
+                yield {"own": n, "data_hex": hx(b)}
+
     def generate(self, rng, tier):
+        yield from self._own_scope(tier == "thorough")
         yield from self._framing_scope()
         yield from self._small_scope(tier == "thorough")
         while True:
+            if rng.chance(0.03):
+                yield {"own": rng.pick(sorted(ORIG_DEC)), "data_hex": hx(rng.bytes_(rng.randint(0, 10)) if rng.chance(0.5) else
+                       rng.pick(rng.pick(list(STREAMS[P1].values()))))}
+                continue
             h = self._history(rng)
             if rng.chance(0.25):        # start from messages with trailers / HTTP-2-3 / TE / absent-correct-stale Content-Length
                 pre = []
@@ -646,10 +695,14 @@ class Check(PropertyCheck):
             yield h
 
     def exhaustive(self, tier):
+        yield from self._own_scope(True)
         yield from self._framing_scope()
         yield from self._small_scope(True)
 
     def neighbours(self, case, rng):
+        if "own" in case:
+            for n in sorted(ORIG_DEC): yield dict(case, own=n)
+            return
         ops = case["ops"]
         for k in range(len(ops)):
             yield {"ops": ops[:k] + ops[k + 1:]}
@@ -669,6 +722,7 @@ class Check(PropertyCheck):
 
     # ---------------- implementation runner ----------------
     def impl(self, case):
+        if "own" in case: return _own(case)
         _install()
         E._cache = E.CachedDecode(None, None, None, None)
         ms = _new_msgs()
@@ -719,6 +773,7 @@ class Check(PropertyCheck):
         [content-length]   [decode] Message.decode on a readable message   [decode-encode] decode();encode() pair
         [hist] exact history dependence (decoded values, states)   [hist-enc] / [hist-raw] semantic history dependence of an
         encode result / of the raw body stored by an assignment.  No clause is skipped because another one failed."""
+        if "own" in case: return []      # tie-only case kind (transcribed decoder functions); the property speaks through the histories
         fails = []
         ops, recs = case["ops"], obs["ops"]
         te_ops = [False, False]       # is a Transfer-Encoding header present — from the case's own `te` ops, not from the run
@@ -865,6 +920,7 @@ class Check(PropertyCheck):
         encoding.encode), raised for the matching op kind, about exactly the bytes/coding/content (and message) that
         `_lenient` establishes for that op.  Everything else — [exc] [assign] [readback] [unknown] [content-length] [decode]
         [decode-encode] [hist] — is never excused, whatever the input."""
+        if "own" in case: return None
         m = re.match(r"op (\d+) \[([a-z-]+)\] (.*)", failure, re.S)
         if not m or m.group(2) not in self._EXCUSED: return None
         k, tag = int(m.group(1)), m.group(2)
@@ -951,6 +1007,9 @@ class Check(PropertyCheck):
 
     # ---------------- model tie ----------------
     def model_lines(self, case):
+        if "own" in case:
+            o = _own(case)
+            return [f"own {_hs(case['own'])} {case['data_hex']} {o['l1']} {o['l2']}"]
         key = json.dumps(case, sort_keys=True)
         obs = self._memo[1] if self._memo[0] == key else self.impl(case)
         lines = ["reset"]
@@ -978,15 +1037,19 @@ class Check(PropertyCheck):
         return replies
 
     def impl_view(self, case, obs):
+        if "own" in case: return [obs["own"]]
         return ["ok"] + [" ".join([r["res"], r["need"], r["cache"], r["after"][0], r["after"][1]]) for r in obs["ops"]]
 
     # ---------------- evidence ----------------
     def classify(self, case, obs):
+        if "own" in case: return json.dumps(case, sort_keys=True) if case["data_hex"] != "-" else None
         if any(r["need"] != "-" for r in obs["ops"]):
             return json.dumps(case, sort_keys=True)
         return None
 
     def branches(self, case, obs):
+        if "own" in case:
+            return [f"own:{obs['fn']}:{obs['own'].split(':')[0]}", f"own:lib1={obs['l1'][:3]}:lib2={obs['l2'][:3]}"]
         out = set()
         for k, (op, r) in enumerate(zip(case["ops"], obs["ops"])):
             o = op["o"]
